@@ -58,6 +58,18 @@ Theorem odeint_budget : forall mx n, (mx < n)%nat -> solve_odeint mx n = Failure
 Proof. exact odeint_budget_lemma. Qed.
 Print Assumptions odeint_budget.
 
+(* ... against the budget in force: after any history of Init / Reset / Solve calls, a Solve is a failure exactly when
+   it needs more steps than the LAST budget given (whether through Init or through Reset) *)
+Theorem odeint_budget_is_the_last_given : forall b cs n,
+  last (odeint_history b (cs ++ [OSolve n])) Success = if Nat.ltb (last_budget b cs) n then Failure else Success.
+Proof. exact odeint_last_budget_lemma. Qed.
+Print Assumptions odeint_budget_is_the_last_given.
+Theorem odeint_reset_example :
+  odeint_history 0 [OInit 500; OSolve 20; OReset 5; OSolve 20; OSolve 5; OReset 700; OSolve 20]
+  = [Success; Failure; Success; Success].
+Proof. reflexivity. Qed.
+Print Assumptions odeint_reset_example.
+
 (* known finding: the cuSPARSE branch of Solve never looks at the integrator's flag *)
 Theorem cusparse_refuted :
   exists dt y0 cs, fst (solve_cusparse dt y0 cs) = Success /\ ~ snd (solve_cusparse dt y0 cs) == y0 + dt.
